@@ -521,6 +521,14 @@ func (w *World) callback(kind int) (func(k int, v int64), int) {
 		if kind == 2 {
 			w.reenterAll(false, k, v)
 		}
+		if kind == 6 {
+			// a callback that looks at the whole cache (what it sees must be judged
+			// by the clock of its own traversal, not by the pass that fired it)
+			w.ExecCache(Op{K: CRange}, true)
+			if v%2 == 0 {
+				w.ExecCache(Op{K: CItems}, true)
+			}
+		}
 		if kind == 5 {
 			// re-arm: the evicted entry is stored again with a TTL of one nanosecond
 			w.rearms++
